@@ -2,7 +2,7 @@
 import ast
 import string
 
-from .common import ctx, returns, calls_in_ctx, reach_from_succ, site, srcs_text
+from .common import ctx, returns, calls_in_ctx, reach_from_succ, site, srcs_text, orient
 from ..flow import callee_attr
 from ..linexpr import lin, show, NotLinear
 from ..loader import AnalysisError, norm, NOVALUE
@@ -37,6 +37,12 @@ def fold_charset(P):
     return ev(r[3])
 
 
+def is_elem_conv(x):
+    """`Component.from_str(Component.escape_str(<name>))` whatever the loop variable is called"""
+    return isinstance(x, ast.Call) and ast.unparse(x.func) in ('Component.from_str', 'from_str') and len(x.args) == 1 and isinstance(x.args[0], ast.Call) \
+        and ast.unparse(x.args[0].func) in ('Component.escape_str', 'escape_str') and len(x.args[0].args) == 1 and isinstance(x.args[0].args[0], ast.Name)
+
+
 def normaliser_table(cx, var):
     """which conversion each input form gets in a NonStrictName normaliser: dict form -> description"""
     t = {}
@@ -49,7 +55,7 @@ def normaliser_table(cx, var):
             if txt in ('Name.decode(name)[0]', 'decode(name)[0]') or txt.startswith(('Name.decode(', 'decode(')):
                 t['binary'] = 'decode'
         for x in n.walk():
-            if isinstance(x, ast.Call) and ast.unparse(x) == ELEM:
+            if isinstance(x, ast.Call) and is_elem_conv(x):
                 t['elem_str'] = 'from_str(escape_str)'
     raises = [n for n in cx.cfg.nodes if n.kind == 'raise' and n.ast.exc is not None and 'TypeError' in ast.unparse(n.ast.exc)]
     t['n_typeerror'] = len(raises)
@@ -80,8 +86,10 @@ def run(R):
         bufs = [v for v in sub.values() if isinstance(v, ast.Call) and ast.unparse(v.func) == 'bytearray']
         want = {'get_tl_num_size(typ)': 1, 'get_tl_num_size(len(val))': 1, 'len(val)': 1}
         ws = [c for (n, c) in sorted(calls_in_ctx(fb, pred=lambda c: ast.unparse(c.func) == 'write_tl_num'), key=lambda x: x[0].id)]
-        ok = len(bufs) == 1 and lin(bufs[0].args[0], sub) == want and len(ws) == 2 and ast.unparse(ws[0].args[0]) == 'typ' and lin(ws[0].args[2], sub) == {} \
-            and ast.unparse(ws[1].args[0]) == 'len(val)' and lin(ws[1].args[2], sub) == {'get_tl_num_size(typ)': 1}
+        def off(c):      # the offset argument of write_tl_num (default 0)
+            return c.args[2] if len(c.args) > 2 else next((k.value for k in c.keywords if k.arg == 'offset'), ast.Constant(0))
+        ok = len(bufs) == 1 and lin(bufs[0].args[0], sub) == want and len(ws) == 2 and ast.unparse(ws[0].args[0]) == 'typ' and lin(off(ws[0]), sub) == {} \
+            and ast.unparse(ws[1].args[0]) == 'len(val)' and lin(off(ws[1]), sub) == {'get_tl_num_size(typ)': 1}
         st = [n for n in fb.cfg.nodes if n.kind == 'stmt' and isinstance(n.ast, ast.Assign) and isinstance(n.ast.targets[0], ast.Subscript)]
         ok = ok and len(st) == 1 and lin(st[0].ast.targets[0].slice.lower, sub) == {'get_tl_num_size(typ)': 1, 'get_tl_num_size(len(val))': 1} and ast.unparse(st[0].ast.value) == 'val'
     except NotLinear:
@@ -123,11 +131,15 @@ def run(R):
             R.ok('C09.SIB.1', inst, site(cx, cx.f.node))
     # Name.normalize: element conversion only under isinstance(comp, str), binary passes through, result is a new list
     nz = norms['Name.normalize']
-    st = [n for n in nz.cfg.nodes if n.kind == 'stmt' and isinstance(n.ast, ast.Assign) and ast.unparse(n.ast.targets[0]) == 'ret[i]']
-    ts = [t for t in nz.cfg.nodes if t.kind == 'test' and ast.unparse(t.ast) == 'isinstance(comp, str)']
+    # the statement that converts a text component: only under isinstance(<that component>, str); the result is a list of its own
+    st = [n for n in nz.cfg.nodes if n.kind == 'stmt' and isinstance(n.ast, ast.Assign) and is_elem_conv(n.ast.value)]
+    cvar = st[0].ast.value.args[0].args[0].id if st else None
+    ts = [t for t in nz.cfg.nodes if t.kind == 'test' and ast.unparse(t.ast) == f'isinstance({cvar}, str)']
     inst = 'Name.normalize :: per-component conversion'
-    if len(st) == 1 and len(ts) == 1 and ast.unparse(st[0].ast.value) == ELEM and st[0].id not in nz.cfg.reachable(removed_edges={(ts[0].id, True)}) \
-            and any(ast.unparse(v) == 'list(name)' for n in nz.cfg.nodes for (nm, v) in nz.cfg.defs_of(n) if nm == 'ret' and isinstance(v, ast.AST)):
+    pn = nz.f.node.args.args[0].arg
+    fresh = any(isinstance(v, ast.AST) and (ast.unparse(v) == f'list({pn})' or (isinstance(v, ast.List) and not v.elts))
+                for r_ in returns(nz) if isinstance(r_.ast.value, ast.Name) for (d_, v) in nz.cfg.defs_reaching(r_, r_.ast.value.id))
+    if len(st) == 1 and len(ts) == 1 and st[0].id not in nz.cfg.reachable(removed_edges={(ts[0].id, True)}) and fresh:
         R.ok('C09.SIB.1', inst, site(nz, st[0].ast))
     else:
         R.fail('C09.SIB.1', inst, nz.qual, st[0].ast if st else 'def normalize', 'components are not converted exactly when they are text (or the caller\'s list is modified)',
@@ -177,7 +189,15 @@ def run(R):
     b = strip_doc(n2.node).replace('Component.to_canonical_uri', 'F')
     inst = 'Name.to_str / to_canonical_uri :: same slash handling'
     R.touch(n1, n2)
-    if a == b and "'/' + '/'.join(" in a and "name[-1] == b'\\x08\\x00'" in a:
+    import re as _re
+    from ..alpha import alpha_form
+    same = a == b
+    if not same:
+        # same up to the names of locals
+        fa_ = ast.parse(ast.unparse(n1.node).replace('Component.to_str', 'F'))
+        fb_ = ast.parse(ast.unparse(n2.node).replace('Component.to_canonical_uri', 'F'))
+        same = alpha_form(fa_.body[0])[0] == alpha_form(fb_.body[0])[0]
+    if same and "'/' + '/'.join(" in a and _re.search(r"\w+\[-1\] == b'\\x08\\x00'", a):
         R.ok('C09.SIB.2', inst, n1.loc())
     else:
         R.fail('C09.SIB.2', inst, NM + '.to_canonical_uri', 'def to_canonical_uri', 'the two name writers differ beyond the component function (leading slash, separator, trailing empty component)', n2.loc())
@@ -185,11 +205,11 @@ def run(R):
     fs = ctx(R, NM + '.from_str')
     inst = 'Name.from_str :: leading / trailing slash and empty components'
     src = strip_doc(fs.f.node)
-    okf = "val.startswith('/')" in src and "val.endswith('/')" in src and 'cnt_slash <= 1' in src and "val.split('/')" in src and \
-        'Component.from_str(Component.escape_str(comp))' in src
+    conv = _re.search(r'Component\.from_str\(Component\.escape_str\(\w+\)\)', src) is not None
+    okf = "val.startswith('/')" in src and "val.endswith('/')" in src and _re.search(r'\w+ <= 1', src) is not None and "val.split('/')" in src and conv
     if okf:
         R.ok('C09.SIB.2', inst, fs.f.loc())
-    elif "val.split('/')" in src and 'Component.from_str(Component.escape_str(comp))' not in src:
+    elif "val.split('/')" in src and not conv:
         R.fail('C09.SIB.2', inst, fs.qual, 'def from_str', 'URI components are not converted with Component.from_str(Component.escape_str(c)) like the other normalisers', fs.f.loc())
     else:
         raise AnalysisError('Name.from_str: slash handling has an unrecognised shape (cannot decide C09.SIB.2)')
@@ -285,17 +305,39 @@ def run(R):
     if not probs:
         txt = {norm(r.ast) for r in rets}
         d1 = {nm: v for n in ip.cfg.nodes for (nm, v) in ip.cfg.defs_of(n) if isinstance(v, ast.AST)}
-        bounded = all(any(isinstance(c, ast.Compare) and len(c.ops) == 1 and isinstance(c.ops[0], (ast.LtE,)) and
-                          ast.unparse(c.comparators[0]) == f'len({params[1]})' and
-                          (ast.unparse(c.left) == f'len({params[0]})' or (isinstance(c.left, ast.Name) and ast.unparse(d1.get(c.left.id, c.left)) == f'len({params[0]})'))
-                          for c in ast.walk(r.ast.value)) for r in rets)
-        sliced = all(any(isinstance(c, ast.Compare) and isinstance(c.ops[0], ast.Eq) and ast.unparse(c.left) == params[0] and
-                         isinstance(c.comparators[0], ast.Subscript) and isinstance(c.comparators[0].slice, ast.Slice) and c.comparators[0].slice.lower is None
-                         for c in ast.walk(r.ast.value)) for r in rets)
+
+        def is_len(e, par):
+            return ast.unparse(e) == f'len({par})' or (isinstance(e, ast.Name) and ast.unparse(d1.get(e.id, e)) == f'len({par})')
+        cmp_rets = [r for r in rets if not (isinstance(r.ast.value, ast.Constant) and r.ast.value.value is False)]
+        sliced = bool(cmp_rets) and all(any(isinstance(c, ast.Compare) and isinstance(c.ops[0], ast.Eq) and ast.unparse(c.left) == params[0] and
+                                            isinstance(c.comparators[0], ast.Subscript) and isinstance(c.comparators[0].slice, ast.Slice)
+                                            and c.comparators[0].slice.lower is None for c in ast.walk(r.ast.value)) for r in cmp_rets)
         if not sliced:
             raise AnalysisError(f'Name.is_prefix: unrecognised comparison {sorted(txt)} (cannot decide C09.SIB.3)')
-        if not bounded:
-            probs.append((rets[0].ast, 'is_prefix compares a slice without bounding it by the length of the longer name'))
+
+        def bounded(r):
+            # in the same expression ...
+            if any(isinstance(c, ast.Compare) and len(c.ops) == 1 and isinstance(c.ops[0], ast.LtE) and is_len(c.left, params[0]) and is_len(c.comparators[0], params[1])
+                   for c in ast.walk(r.ast.value)):
+                return True
+            # ... or by a guard `len(lhs) > len(rhs) -> return False` that every path to this return passes on its other edge
+            for t in ip.cfg.nodes:
+                if t.kind != 'test':
+                    continue
+                o = orient(t.ast, lambda e: is_len(e, params[0]))
+                if o is None or not is_len(o.comparators[0], params[1]):
+                    continue
+                lab_short = {ast.Gt: True, ast.LtE: False}.get(type(o.ops[0]))      # edge on which lhs is longer than rhs
+                if lab_short is None:
+                    continue
+                longer = reach_from_succ(ip.cfg, t, lab_short, follow_exc=False)
+                ends = [x for x in rets if x.id in longer]
+                if ends and all(isinstance(x.ast.value, ast.Constant) and x.ast.value.value is False for x in ends) \
+                        and r.id not in ip.cfg.reachable(removed_edges={(t.id, not lab_short)}, follow_exc=False):
+                    return True
+            return False
+        if not all(bounded(r) for r in cmp_rets):
+            probs.append((cmp_rets[0].ast, 'is_prefix compares a slice without bounding it by the length of the longer name'))
     if probs:
         for (c, what) in probs:
             R.fail('C09.SIB.3', inst, ip.qual, c, what, ip.f.loc())
